@@ -35,6 +35,15 @@ func init() {
 			n = 300
 		}
 		genEnvInit(r, emit, n)
+		// whole applications (harness/appfull.go, Model/AppFull): Recovery next to a custom ReturnHandler, the injector's
+		// scopes, Static and the Renderer — a panic is answered by Recovery itself, whatever else the application has mapped
+		m := 120
+		if tier == "thorough" {
+			m = 2500
+		}
+		for i := 0; i < m; i++ {
+			afRandomSession(r, emit)
+		}
 	}
 }
 
